@@ -42,7 +42,8 @@ theorem absMap_congr {s s' : St} (h : Inv s) (h' : Inv s') {k : String}
 theorem inject_ok_iff {s : St} (uid : String) (owner : Option Nat) (ms dur : Nat) (occ : List Nat)
     (isTask : Bool) (peer : Nat) :
     (inject s uid owner ms dur occ isTask peer).2 = true ↔
-      isTask = true ∧ ∃ e, effOwner s owner peer = some e ∧ (absMap s uid = none ∨ absMap s uid = some e) := by
+      isTask = true ∧ uid ≠ "" ∧
+        ∃ e, effOwner s owner peer = some e ∧ (absMap s uid = none ∨ absMap s uid = some e) := by
   rw [inject_eq]
   unfold injectSpec
   cases he : effOwner s owner peer with
@@ -52,7 +53,11 @@ theorem inject_ok_iff {s : St} (uid : String) (owner : Option Nat) (ms dur : Nat
     cases isTask with
     | false => simp
     | true =>
-      simp only [Bool.not_true, Bool.false_eq_true, if_false, true_and, Option.some.injEq, exists_eq_left']
+      by_cases hu : uid = ""
+      · simp [hu]
+      have hue : (uid == "") = false := by simpa using hu
+      simp only [hue, Bool.not_true, Bool.or_false, Bool.false_eq_true, if_false, true_and, Option.some.injEq,
+        exists_eq_left', ne_eq, hu, not_false_eq_true]
       cases hf : s.find uid with
       | none => simp
       | some old =>
@@ -89,11 +94,12 @@ theorem inject_fail {s : St} (uid : String) (owner : Option Nat) (ms dur : Nat) 
 owner -/
 theorem inject_add_new {s : St} (h : Inv s) (uid : String) (owner : Option Nat) (ms dur : Nat) (occ : List Nat)
     (peer e : Nat) (hs : occ.Pairwise (· ≤ ·)) (he : effOwner s owner peer = some e)
-    (hnew : absMap s uid = none) :
+    (hnew : absMap s uid = none) (hu : uid ≠ "") :
     (inject s uid owner ms dur occ true peer).2 = true ∧
     ∀ k, absMap (inject s uid owner ms dur occ true peer).1 k = if k = uid then some e else absMap s k := by
+  have hue : (uid == "") = false := by simpa using hu
   have hok : (inject s uid owner ms dur occ true peer).2 = true :=
-    (inject_ok_iff uid owner ms dur occ true peer).mpr ⟨rfl, e, he, Or.inl hnew⟩
+    (inject_ok_iff uid owner ms dur occ true peer).mpr ⟨rfl, hu, e, he, Or.inl hnew⟩
   refine ⟨hok, ?_⟩
   have hinv' := Inv_inject h uid owner ms dur occ true peer hs
   have hfn : s.find uid = none := absMap_eq_none_iff.mp hnew
@@ -101,8 +107,8 @@ theorem inject_add_new {s : St} (h : Inv s) (uid : String) (owner : Option Nat) 
       t ∈ s.tasks ∨ t = loaded s (fresh s.nextSid uid e ms dur occ) := by
     intro t
     rw [inject_eq]
-    simp only [injectSpec, he, injectAs, Bool.not_true, Bool.false_eq_true, if_false, hfn, List.mem_append,
-      List.mem_singleton]
+    simp only [injectSpec, he, injectAs, hue, Bool.or_false, Bool.not_true, Bool.false_eq_true, if_false, hfn,
+      List.mem_append, List.mem_singleton]
   have hk := loaded_keeps s (fresh s.nextSid uid e ms dur occ)
   intro k
   apply Option.ext
@@ -136,18 +142,21 @@ theorem inject_replace_own {s : St} (h : Inv s) (uid : String) (owner : Option N
     (∀ k, absMap (inject s uid owner ms dur occ true peer).1 k = absMap s k) ∧
     ∃ t', (inject s uid owner ms dur occ true peer).1.find uid = some t' ∧ t'.maxSimul = ms ∧
       t'.occ = occ.dropWhile (· < s.now) := by
-  have hok : (inject s uid owner ms dur occ true peer).2 = true :=
-    (inject_ok_iff uid owner ms dur occ true peer).mpr ⟨rfl, e, he, Or.inr hown⟩
-  have hinv' := Inv_inject h uid owner ms dur occ true peer hs
   obtain ⟨old, hom, hoi, hou, hoo⟩ := (absMap_eq_some_iff h).mp hown
+  -- a uid the table holds is a usable one
+  have hu : uid ≠ "" := by rw [← hou]; exact h.uidNe old hom
+  have hok : (inject s uid owner ms dur occ true peer).2 = true :=
+    (inject_ok_iff uid owner ms dur occ true peer).mpr ⟨rfl, hu, e, he, Or.inr hown⟩
+  have hue : (uid == "") = false := by simpa using hu
+  have hinv' := Inv_inject h uid owner ms dur occ true peer hs
   have hfo : s.find uid = some old := (find_eq_some_iff h).mpr ⟨hom, hoi, hou⟩
   have hk := loaded_keeps s (replaced old e ms dur occ)
   have hmem : ∀ t, t ∈ (inject s uid owner ms dur occ true peer).1.tasks ↔
       (t ∈ s.tasks ∧ t.sid ≠ old.sid) ∨ t = loaded s (replaced old e ms dur occ) := by
     intro t
     rw [inject_eq]
-    simp only [injectSpec, he, injectAs, Bool.not_true, Bool.false_eq_true, if_false, hfo, hoo, ne_eq,
-      not_true_eq_false]
+    simp only [injectSpec, he, injectAs, hue, Bool.or_false, Bool.not_true, Bool.false_eq_true, if_false, hfo, hoo,
+      ne_eq, not_true_eq_false]
     rw [mem_upd, hk.1]
     constructor
     · rintro (h1 | ⟨h1, _⟩)
@@ -511,7 +520,8 @@ theorem applyInstr_ok_iff (s : St) (p : Nat) (i : Instr) :
     (applyInstr s p i).2 = true ↔
       match i with
       | .sched uid owner _ _ _ isTask =>
-        isTask = true ∧ ∃ e, effOwner s owner p = some e ∧ (absMap s uid = none ∨ absMap s uid = some e)
+        isTask = true ∧ uid ≠ "" ∧
+          ∃ e, effOwner s owner p = some e ∧ (absMap s uid = none ∨ absMap s uid = some e)
       | .cancel uid => absMap s uid = some p := by
   cases i with
   | sched uid owner ms dur occ isTask => exact inject_ok_iff uid owner ms dur occ isTask p
